@@ -249,14 +249,14 @@ class IdentServer(_RecMixin, UDSServer):
             # suppressPosRspMsgIndicationBit set: positive answers are suppressed
             return (None if (ident & 0x7F) in self.pos.get((truth, 0), ()) else bytes([0x7F, svc, 0x12])), False
         key = (truth, sf)
+        if self.mutant == "fake-answers-positive-outside-model" and ident not in self.pos.get(key, ()):
+            return ident_positive(svc, sf, ident), False
         if ident in self.pos.get(key, ()):
             return ident_positive(svc, sf, ident), ident in self.drop.get(key, ())
         if ident in self.abn.get(key, ()):
             return bytes([0x7F, svc, 0x33 if ident % 2 else 0x22]), False
         if ident in self.sil.get(key, ()):
             return None, False
-        if self.mutant == "fake-answers-positive-outside-model" and ident % 7 == 3:
-            return ident_positive(svc, sf, ident), False
         return bytes([0x7F, svc, 0x12 if svc == 0x27 else 0x31]), False
 
     async def respond(self, request: service.UDSRequest) -> Any:
